@@ -118,8 +118,12 @@ package data
 //@   fresh r
 //@   assigns nothing
 //@   ensures [C02.offsets] len(r) == len(dims) && r[len(dims)-1] == 1 && forall(k, 0, len(dims)-1, r[k] == r[k+1]*dims[k+1])
+//@   ensures [C02.offsets-products] forall(k, 0, len(dims), r[k] == pfrom(dims, k+1, len(dims)))
+//@   ensures [C02.offsets-positive] implies(forall(k, 0, len(dims), dims[k] >= 1), forall(k, 0, len(dims), r[k] >= 1))
 //@   loop 0 invariant -1 <= i && i <= len(dims) - 2 && len(res) == len(dims) && res[len(dims)-1] == 1
 //@   loop 0 invariant forall(k, i+1, len(dims)-1, res[k] == res[k+1]*dims[k+1])
+//@   loop 0 invariant forall(k, i+1, len(dims), res[k] == pfrom(dims, k+1, len(dims)))
+//@   loop 0 invariant implies(forall(k, 0, len(dims), dims[k] >= 1), forall(k, i+1, len(dims), res[k] >= 1))
 
 //@ func IDivMod(numerator, denominators, modulator) returns (r)
 //@   safety C02
@@ -128,6 +132,7 @@ package data
 //@   fresh r
 //@   assigns nothing
 //@   ensures [C02.idivmod] len(r) == len(denominators) && forall(k, 0, len(denominators), r[k] == tmod(tdiv(numerator, denominators[k]), modulator[k]))
+//@   ensures [C02.idivmod-natural] implies(numerator >= 0 && forall(k, 0, len(denominators), denominators[k] >= 1 && modulator[k] >= 1), forall(k, 0, len(denominators), r[k] == mod(div(numerator, denominators[k]), modulator[k])))
 //@   loop 0 invariant -1 <= rangeindex && rangeindex < len(denominators) && len(res) == len(denominators)
 //@   loop 0 invariant forall(k, 0, rangeindex + 1, res[k] == tmod(tdiv(numerator, denominators[k]), modulator[k]))
 
@@ -284,7 +289,10 @@ package data
 //@   requires len(nd.OriginalDims) >= len(nd.Dims) && len(nd.Step) >= len(nd.Dims) && len(nd.Offset) >= len(nd.Dims)
 //@   assigns nothing
 //@   ensures [C02.contiguous-char] iff(r, forall(k, 0, len(nd.Dims), implies(nd.Dims[k] > 1, agree(nd.Dims, nd.OriginalDims, k+1, len(nd.Dims)) && nd.Step[k] <= 1 && nd.Offset[k] <= pfrom(nd.Dims, k+1, len(nd.Dims)))))
+//@   ensures [C02.contiguous-products] implies(r, forall(k, 0, len(nd.Dims), implies(nd.Dims[k] > 1, nd.Step[k] <= 1 && pfrom(nd.OriginalDims, k+1, len(nd.Dims)) == pfrom(nd.Dims, k+1, len(nd.Dims)) && nd.Offset[k] <= pfrom(nd.Dims, k+1, len(nd.Dims)))))
 //@   loop 0 invariant -1 <= i && i < len(nd.Dims)
+//@   loop 0 invariant implies(!dimsMustBeOne, pfrom(nd.OriginalDims, i+1, len(nd.Dims)) == contiguousOffset)
+//@   loop 0 invariant forall(k, i+1, len(nd.Dims), implies(nd.Dims[k] > 1, nd.Step[k] <= 1 && pfrom(nd.OriginalDims, k+1, len(nd.Dims)) == pfrom(nd.Dims, k+1, len(nd.Dims)) && nd.Offset[k] <= pfrom(nd.Dims, k+1, len(nd.Dims))))
 //@   loop 0 invariant contiguousOffset == pfrom(nd.Dims, i+1, len(nd.Dims)) && iff(dimsMustBeOne, !agree(nd.Dims, nd.OriginalDims, i+1, len(nd.Dims)))
 //@   loop 0 invariant forall(k, i+1, len(nd.Dims), implies(nd.Dims[k] > 1, agree(nd.Dims, nd.OriginalDims, k+1, len(nd.Dims)) && nd.Step[k] <= 1 && nd.Offset[k] <= pfrom(nd.Dims, k+1, len(nd.Dims))))
 
@@ -316,3 +324,70 @@ package data
 // address of the j-th element of a run that starts at base and advances by step elements of stride os
 //@ specu runaddr(base int, j int, step int, os int) int = base + j*step*os
 
+
+// =====================================================================
+// L3: bulk operations against their row-major definition (C02)
+// element j (row-major) of a view with extents d has coordinates
+//   rmc(d, j, N, k) = (j div pfrom(d, k+1, N)) mod d[k]
+// and lives at  Start + rmaddr(d, OffsetStep, j, N, N)
+// =====================================================================
+
+//@ spec rmc(d []int, j int, N int, k int) int = mod(div(j, pfrom(d, k+1, N)), d[k])
+//@ spec rmaddr(d []int, os []int, j int, N int, n int) int = ite(n <= 0, 0, rmaddr(d, os, j, N, n-1) + rmc(d, j, N, n-1)*os[n-1])
+
+// address offset of the last element of a view with non-negative strides
+//@ spec lastoff(d []int, os []int, n int) int = ite(n <= 0, 0, lastoff(d, os, n-1) + (d[n-1]-1)*os[n-1])
+// products of positive extents are positive
+//@ induct [C02.lemma-iprod-positive] (d []int) n : implies(forall(k, 0, n, d[k] >= 1), iprod(d, n) >= 1)
+// the index vector d-1 addresses the last element
+//@ induct [C02.lemma-idot-last] (a []int, d []int, os []int) n : implies(forall(k, 0, n, a[k] == d[k] - 1), idot(a, os, n) == lastoff(d, os, n))
+// an index vector made of the row-major coordinates addresses rmaddr
+//@ induct [C02.lemma-idot-rm] (a []int, d []int, os []int, j int, N int) n : implies(forall(k, 0, n, a[k] == rmc(d, j, N, k)), idot(a, os, n) == rmaddr(d, os, j, N, n))
+
+// ---- contiguous views: the fast paths agree with the row-major definition ----
+// trailing products of positive extents are positive
+//@ induct [C02.lemma-pfrom-positive] (d []int, N int) m : implies(0 <= m && m <= N && forall(k, 0, N, d[k] >= 1), forall(k, N-m, N+1, pfrom(d, k, N) >= 1))
+// the empty trailing product (induction variable unused)
+//@ induct [C02.lemma-pfrom-end] (d []int, N int) z : pfrom(d, N, N) == 1
+// the two product functions agree
+//@ induct [C02.lemma-iprod-pfrom] (d []int, N int) m : implies(0 <= m && m <= N, iprod(d, m) * pfrom(d, m, N) == pfrom(d, 0, N))
+//@ induct [C02.lemma-iprod-is-pfrom0] using C02.lemma-iprod-pfrom(d, N, N), C02.lemma-pfrom-end(d, N, 0) (d []int, N int) z : implies(N >= 0, iprod(d, N) == pfrom(d, 0, N))
+// mixed-radix step: (j div P) mod d, times P, plus j mod P is j mod (d*P)   (induction variable unused)
+//@ induct [C02.lemma-Q-radix-step] (j int, P int, d int) n : implies(j >= 0 && P >= 1 && d >= 1, mod(div(j, P), d)*P + mod(j, P) == mod(j, d*P))
+// Lemma B (mixed radix): with row-major strides on every axis of extent > 1, the
+// address of row-major element j, summed over the first n axes, is j minus its remainder
+//@ induct [C02.lemma-B-rowmajor] using C02.lemma-Q-radix-step (d []int, os []int, j int, N int) n : implies(n <= N && j >= 0 && forall(k, 0, N, d[k] >= 1) && forall(k, 0, N+1, pfrom(d, k, N) >= 1) && forall(k, 0, n, implies(d[k] > 1, os[k] == pfrom(d, k+1, N))), rmaddr(d, os, j, N, n) + mod(j, pfrom(d, n, N)) == mod(j, pfrom(d, 0, N)))
+// Lemma C: ... and the last element is at offset (number of elements - 1)
+//@ induct [C02.lemma-C-lastoff] (d []int, os []int, N int) n : implies(n <= N && forall(k, 0, N, d[k] >= 1) && forall(k, 0, n, implies(d[k] > 1, os[k] == pfrom(d, k+1, N))), lastoff(d, os, n) == pfrom(d, 0, N) - pfrom(d, n, N))
+
+// Lemma B at full rank: with row-major strides on every axis of extent > 1, row-major element j lives at offset j
+//@ induct [C02.lemma-contig-addresses] using C02.lemma-B-rowmajor, C02.lemma-iprod-positive, C02.lemma-pfrom-positive(d, N, N), C02.lemma-iprod-is-pfrom0(d, N, 0), C02.lemma-pfrom-end(d, N, 0) (d []int, os []int, N int) z : implies(N >= 1 && forall(k, 0, N, d[k] >= 1) && forall(k, 0, N, implies(d[k] > 1, os[k] == pfrom(d, k+1, N))), forall(j, 0, iprod(d, N), rmaddr(d, os, j, N, N) == j))
+// Lemma C at full rank: ... and the last element is at offset (number of elements) - 1
+//@ induct [C02.lemma-contig-length] using C02.lemma-C-lastoff(d, os, N, N), C02.lemma-iprod-is-pfrom0(d, N, 0), C02.lemma-pfrom-end(d, N, 0) (d []int, os []int, N int) z : implies(N >= 1 && forall(k, 0, N, d[k] >= 1) && forall(k, 0, N, implies(d[k] > 1, os[k] == pfrom(d, k+1, N))), lastoff(d, os, N) + 1 == iprod(d, N))
+
+// the characterisation proved for Contiguous()
+//@ spec contigc(d []int, od []int, st []int, of []int, n int) bool = forall(k, 0, n, implies(d[k] > 1, agree(d, od, k+1, n) && st[k] <= 1 && of[k] <= pfrom(d, k+1, n)))
+
+//@ func (*nd{t}).Unroll(nd) returns (r)
+//@   safety C02
+//@   chain ensures
+//@   uses C02.lemma-iprod-positive, C02.lemma-idot-rm, C02.lemma-idot-last
+//@   instantiate C02.lemma-contig-addresses(nd.Dims, nd.OffsetStep, len(nd.Dims), 0)
+//@   instantiate C02.lemma-contig-length(nd.Dims, nd.OffsetStep, len(nd.Dims), 0)
+//@   requires len(nd.Dims) >= 1 && len(nd.OffsetStep) == len(nd.Dims) && len(nd.OriginalDims) == len(nd.Dims) && len(nd.Step) == len(nd.Dims) && len(nd.Offset) == len(nd.Dims)
+//@   requires forall(k, 0, len(nd.Dims), nd.OffsetStep[k] == nd.Offset[k]*nd.Step[k] && nd.Step[k] >= 1 && nd.Offset[k] == pfrom(nd.OriginalDims, k+1, len(nd.Dims)))
+//@   requires forall(k, 0, len(nd.Dims), nd.Dims[k] >= 1)
+//@   requires forall(j, 0, iprod(nd.Dims, len(nd.Dims)), 0 <= nd.Start + rmaddr(nd.Dims, nd.OffsetStep, j, len(nd.Dims), len(nd.Dims)) && nd.Start + rmaddr(nd.Dims, nd.OffsetStep, j, len(nd.Dims), len(nd.Dims)) < len(nd.Impl))
+//@   requires nd.Start >= 0 && lastoff(nd.Dims, nd.OffsetStep, len(nd.Dims)) >= -1 && nd.Start + lastoff(nd.Dims, nd.OffsetStep, len(nd.Dims)) < len(nd.Impl)
+//@   assigns nothing
+//@   ensures [C02.unroll-alias-iff-contiguous] iff(r.id == nd.Impl.id, contigc(nd.Dims, nd.OriginalDims, nd.Step, nd.Offset, len(nd.Dims)))
+//@   ensures [C02.unroll-contiguous-strides] implies(r.id == nd.Impl.id, forall(k, 0, len(nd.Dims), implies(nd.Dims[k] > 1, nd.OffsetStep[k] == pfrom(nd.Dims, k+1, len(nd.Dims)))))
+//@   ensures [C02.unroll-contiguous-length] implies(r.id == nd.Impl.id, lastoff(nd.Dims, nd.OffsetStep, len(nd.Dims)) + 1 == iprod(nd.Dims, len(nd.Dims)))
+//@   ensures [C02.unroll-contiguous-addresses] implies(r.id == nd.Impl.id, forall(j, 0, iprod(nd.Dims, len(nd.Dims)), rmaddr(nd.Dims, nd.OffsetStep, j, len(nd.Dims), len(nd.Dims)) == j))
+//@   ensures [C02.unroll-alias] implies(r.id == nd.Impl.id, r.off == nd.Start && len(r) == lastoff(nd.Dims, nd.OffsetStep, len(nd.Dims)) + 1)
+//@   ensures [C02.unroll-rowmajor] len(r) == iprod(nd.Dims, len(nd.Dims)) && forall(j, 0, len(r), r[j] == nd.Impl[nd.Start + rmaddr(nd.Dims, nd.OffsetStep, j, len(nd.Dims), len(nd.Dims))])
+//@   ensures [C02.unroll-gather] implies(r.id != nd.Impl.id, len(r) == iprod(nd.Dims, len(nd.Dims)) && forall(j, 0, len(r), r[j] == nd.Impl[nd.Start + rmaddr(nd.Dims, nd.OffsetStep, j, len(nd.Dims), len(nd.Dims))]))
+//@   loop 0 invariant 0 <= i && i <= length && length == iprod(nd.Dims, len(nd.Dims)) && len(res) == length && len(dimOffsets) == len(nd.Dims) && res.id != nd.Impl.id
+//@   loop 0 invariant forall(k, 0, len(nd.Dims), dimOffsets[k] == pfrom(nd.Dims, k+1, len(nd.Dims)) && dimOffsets[k] >= 1)
+//@   loop 0 invariant forall(j, 0, i, res[j] == nd.Impl[nd.Start + rmaddr(nd.Dims, nd.OffsetStep, j, len(nd.Dims), len(nd.Dims))])
+//@   loop 0 invariant implies(i < length, 0 <= nd.Start + rmaddr(nd.Dims, nd.OffsetStep, i, len(nd.Dims), len(nd.Dims)) && nd.Start + rmaddr(nd.Dims, nd.OffsetStep, i, len(nd.Dims), len(nd.Dims)) < len(nd.Impl))
